@@ -109,18 +109,26 @@ def callee_name(t):
     return None
 
 
+METHOD_WRAPPERS = {"compute", "rechunk", "persist", "astype", "copy", "squeeze", "ravel", "tolist"}
+
+
 def strip(t, wrappers=("computed",), ext_wrappers=("asnumpy", "asarray", "compute")):
     """Remove value-preserving wrappers at the top of a term."""
     while isinstance(t, T):
         if t.op in wrappers and t.args:
             t = t.args[0]
             continue
-        if t.op == "call" and isinstance(t.args[0], T) and len(t.args[1]) >= 1:
+        if t.op == "call" and isinstance(t.args[0], T):
             c = t.args[0]
             nm = c.args[0] if c.op == "ext" else (c.args[1] if c.op == "attr" else None)
-            if nm is not None and str(nm).rsplit(".", 1)[-1] in ext_wrappers:
-                t = t.args[1][0]
-                continue
+            last = str(nm).rsplit(".", 1)[-1] if nm is not None else None
+            if last in ext_wrappers:
+                if c.op == "attr" and last in METHOD_WRAPPERS:
+                    t = c.args[0]  # x.compute(), x.rechunk(spec), x.astype(t): the value is the receiver
+                    continue
+                if len(t.args[1]) >= 1:
+                    t = t.args[1][0]  # asnumpy(x), np.asarray(x)
+                    continue
         break
     return t
 
